@@ -141,6 +141,28 @@ func c13Compile(mode string, c frontend.Circuit) (constraint.ConstraintSystem, e
 
 func pow2(n int) *big.Int { return new(big.Int).Lsh(big.NewInt(1), uint(n)) }
 
+type mixedTableCircuit struct {
+	R   frontend.Variable `gnark:",public"`
+	E   []frontend.Variable
+	I   frontend.Variable
+	pat string
+}
+
+func (c *mixedTableCircuit) Define(api frontend.API) error {
+	t := logderivlookup.New(api)
+	k := 0
+	for _, ch := range c.pat {
+		if ch == 'v' {
+			t.Insert(c.E[k])
+			k++
+		} else {
+			t.Insert(7)
+		}
+	}
+	api.AssertIsEqual(t.Lookup(c.I)[0], c.R)
+	return nil
+}
+
 func runC13(args []string) int {
 	o := parseOpts(args)
 	rng := NewRNG(o.Seed)
@@ -780,6 +802,47 @@ func runC13(args []string) int {
 					rep.Fail("c13:multicommit-solve:"+mode, obs.Class+" "+obs.Msg, desc)
 				}
 			}
+		}
+	}
+	// ---- lookup tables mixing witness entries and constants: every witness entry must be among the committed wires (the
+	// challenge of the log-derivative argument must depend on the table the prover chose), wherever the constants sit
+	for _, pat := range []string{"vvv", "vvc", "cvv", "vcv", "vcc", "ccv", "vvvvc", "cvcvc"} {
+		mk := func() *mixedTableCircuit { return &mixedTableCircuit{E: make([]frontend.Variable, strings.Count(pat, "v")), pat: pat} }
+		desc := c13Desc{Kind: "lookup-mixed-table", Detail: "entries (v = witness, c = constant): " + pat}
+		ccs, err := c13Compile("r1cs", mk())
+		rep.Eval("mixed-table|"+pat, true)
+		if err != nil {
+			rep.Fail("c13:compile:mixed-table", err.Error(), desc)
+			continue
+		}
+		committed := map[int]bool{}
+		if ci, ok := sysOf(ccs).CommitmentInfo.(constraint.Groth16Commitments); ok {
+			for _, c := range ci {
+				for _, w := range c.PrivateCommitted {
+					committed[w] = true
+				}
+				for _, w := range c.PublicAndCommitmentCommitted {
+					committed[w] = true
+				}
+			}
+		}
+		// wire 0: constant, wire 1: public R, wires 2..: E[k], then I
+		for k := 0; k < strings.Count(pat, "v"); k++ {
+			if !committed[2+k] {
+				rep.Fail("c13:lookup-table-entry-not-committed", fmt.Sprintf("witness entry E[%d] of a lookup table with entries %s is not among the committed wires: the challenge does not depend on it", k, pat), desc)
+			}
+		}
+		a := mk()
+		for k := range a.E {
+			a.E[k] = 100 + k
+		}
+		a.I, a.R = 0, 100
+		if pat[0] == 'c' {
+			a.R = 7
+		}
+		w, _ := frontend.NewWitness(a, bnQ)
+		if obs := SolveCapture(ccs, w, 1); obs.Class != "ok" {
+			rep.Fail("c13:lookup-rejects-valid:mixed-table", obs.Class+" "+obs.Msg, desc)
 		}
 	}
 	hdr := "From Coq Require Import ZArith List Bool.\nFrom GnarkV Require Import Std.Emulated Std.RangeCheck Std.RangeCheckCases.\nImport ListNotations.\n"
